@@ -32,11 +32,19 @@ AggBox == [kind : {"agg"}, recv : {"MultiPoint", "LineString", "MultiLineString"
            vs : {<< <<4, 4>>, <<8, 8>>, <<12, 12>> >>, << <<8, 8>>, <<4, 4>>, <<12, 12>> >>, << <<4, 12>>, <<8, 9>>, <<12, 4>> >>,
                  << <<4, 12>>, <<12, 4>>, <<8, 8>>, <<5, 5>> >>, << <<4, 4>>, <<12, 12>>, <<12, 4>> >>},
            polys : {<<Holed>>, <<Notched>>}]
+(* two member polygons that overlap: a vertex of the receiver lies on an edge of one member and inside the other (on the
+   edge wins over the parity), in both member orders, with the other vertices inside exactly one member *)
+MemA == << << <<0, 0>>, <<8, 0>>, <<8, 8>>, <<0, 8>> >> >>
+MemB == << << <<4, 2>>, <<12, 2>>, <<12, 6>>, <<4, 6>> >> >>
+AggOver == [kind : {"agg"}, recv : {"MultiPoint", "LineString", "MultiLineString", "Polygon"},
+            vs : {<< <<8, 4>>, <<2, 2>>, <<10, 4>> >>, << <<2, 2>>, <<8, 4>>, <<10, 4>> >>, << <<2, 2>>, <<10, 4>>, <<8, 4>> >>,
+                  << <<4, 4>>, <<2, 2>>, <<10, 4>> >>, << <<2, 2>>, <<10, 4>>, <<2, 7>> >>, << <<2, 2>>, <<6, 4>>, <<10, 4>> >>},
+            polys : {<<MemA, MemB>>, <<MemB, MemA>>}]
 (* the same questions at magnitudes whose products leave the floating-point range (polygon and query points times 2^sh) *)
 Shifted == {[kind |-> "poly", polys |-> p, n |-> GridN, sh |-> k] : p \in {<< <<r>> >> : r \in {y \in R3 : (Hash(y, 1) \div M3) % 6 = 0} \cup {y \in R4 : (Hash(y, 1) \div M4) % 6 = 0}}
                                                                        \cup {<< <<q[1], q[2]>> >> : q \in {y \in Pairs : (Hash(y[1], 1) \div M3) % 6 = 0}}, k \in {-560, 520}}
 GenInit == /\ polys = <<>>
-           /\ c \in [kind : {"poly"}, polys : PolyCases, n : {GridN}] \cup AggCases \cup AggOne \cup AggBox \cup Shifted
+           /\ c \in [kind : {"poly"}, polys : PolyCases, n : {GridN}] \cup AggCases \cup AggOne \cup AggBox \cup AggOver \cup Shifted
            /\ PrintT(ToJson(c))
 GenSpec == GenInit /\ [][UNCHANGED <<polys, c>>]_<<polys, c>>
 =============================================================================
